@@ -709,8 +709,56 @@ def check_sumvar(repo, chk):
             chk.violation("S-sumvar", add.key, "add:%s%s" % (int(h1), int(h2)), "SumVar.__add__: %s - the normalisation integral of a batched custom model then has the wrong value / derivatives for more than one phase-space batch" % b, file=VARF, line=add.lineno)
 
 
+def check_sumvar_call(repo, chk):
+    """SumVar() re-attaches the stored derivatives to the variables: value counted once"""
+    import numpy as np
+    import sympy as sp
+
+    from ..sym import SelfObj, Translator, Unmodelled, equal
+    VARF = "tf_pwa/variable.py"
+    chk.rule("S-sumvar", "SumVar(value, grad, var) followed by SumVar.__call__, interpreted with tf.stop_gradient as an uninterpreted function SG: the result is SG(value) + sum_k grad_k (var_k - SG(var_k)) [+ 1/2 sum_kl hess_kl (var_k - SG(var_k))(var_l - SG(var_l))] - the stored value enters gradient-stopped, so an enclosing tape sees each derivative exactly once")
+    sv = repo.cls(VARF + "::SumVar")
+    init, call = sv.methods.get("__init__"), sv.methods.get("__call__")
+    if init is None or call is None:
+        raise AnalysisError("anchor vanished: SumVar.__init__ / __call__")
+    SG = sp.Function("SG")
+
+    def first(tr, d, args, kwargs, n):
+        if d.split(".")[-1] == "stop_gradient":
+            a = args[0]
+            if isinstance(a, np.ndarray):
+                out = np.empty(a.shape, dtype=object)
+                for i in np.ndindex(a.shape):
+                    out[i] = SG(a[i])
+                return out
+            return SG(sp.sympify(a))
+        return NotImplemented
+
+    x, y = sp.symbols("x y", real=True)
+    v = sp.Symbol("v", real=True)
+    g = np.array([sp.Symbol("gx", real=True), sp.Symbol("gy", real=True)], dtype=object)
+    h = np.array([[sp.Symbol("hxx", real=True), sp.Symbol("hxy", real=True)], [sp.Symbol("hxy", real=True), sp.Symbol("hyy", real=True)]], dtype=object)
+    for with_h in (False, True):
+        so = SelfObj(sv, {})
+        tr = Translator(repo, hooks={"numeric_call_first": first, "allow_attr_store": True, "stack_as_array": True}, max_depth=3)
+        try:
+            tr.call_fn(init, [v, g, [x, y]], {"hess": h} if with_h else {}, self_obj=so)
+            out = tr.call_fn(call, [], {}, self_obj=so)
+        except Unmodelled as e:
+            raise AnalysisError("SumVar.__init__ / __call__ cannot be interpreted: %s" % e)
+        dx, dy = x - SG(x), y - SG(y)
+        want = SG(v) + g[0] * dx + g[1] * dy
+        if with_h:
+            want = want + sp.Rational(1, 2) * (h[0, 0] * dx * dx + 2 * h[0, 1] * dx * dy + h[1, 1] * dy * dy)
+        ok = equal(sp.sympify(out), want)[0] is True
+        chk.oblige("S-sumvar", "SumVar(v, g, [x, y]%s)() == SG(v) + g.(var - SG(var))%s" % (", hess" if with_h else "", " + 1/2 (var-SG(var)).H.(var-SG(var))" if with_h else ""), ok)
+        if not ok:
+            chk.violation("S-sumvar", call.key, "call:%s" % ("hess" if with_h else "grad"), "SumVar()%s evaluates to %s, expected %s: if the stored value is not gradient-stopped, error propagation through a batched sum counts the derivative twice" % (" with a Hessian" if with_h else "", out, want), file=VARF, line=call.lineno)
+
+
 def run(repo, chk, tier):
     check_sumvar(repo, chk)
+    check_sumvar_call(repo, chk)
     check_gauss_constr(repo, chk)
     check_constraint_once(repo, chk, ("value", "grad", "hess"))
     chk.assume("tensor shapes are abstracted: x[:, None] / x[None, :] are identities, products commute (diagonal scalings)")
